@@ -144,7 +144,8 @@ static Reg r_gcalt("gc_alt", [](const Args& a) {
     }
   }
   // (3) the four representation overloads, main and alternate
-  if (m.zone >= 0 || m.zone == UTMUPS::INVALID) {
+  // (UTMUPS::Reverse returns NaNs for a NaN coordinate before it looks at the zone, so GeoCoords(61, n, NaN, y) exists with zone 61: only legal zones here)
+  if ((m.zone >= 0 && m.zone <= 60) || m.zone == UTMUPS::INVALID) {
     struct V { const char* name; bool alt; int label; };   // label: -1 the object's, 0 south, 1 north
     for (const V& v : {V{"UTMUPSRepresentation", false, -1}, V{"UTMUPSRepresentation", false, 0}, V{"UTMUPSRepresentation", false, 1},
                        V{"AltUTMUPSRepresentation", true, -1}, V{"AltUTMUPSRepresentation", true, 0}, V{"AltUTMUPSRepresentation", true, 1}}) {
@@ -199,6 +200,12 @@ static Reg r_gconv("gconv", [](const Args& a) {
     if (!m.ok) { if (!iserr) bad("tool-values", "GeoConvert prints a result for a line the conversion classes reject" + ctx); continue; }
     gct::Pt al = gct::in_zone(m, zone);
     std::string cls = (m.lat == 0 && !m.northp && al.ok && al.zone != m.zone) ? " [class:equator-south-label]" : "";
+    if (al.ok && (std::isnan(al.x) || std::isnan(al.y)) && std::isfinite(m.lat) && std::isfinite(m.lon)) {
+      // the conversion classes return NaN coordinates for a finite position: never a result to print
+      if (!iserr) bad("tool-values", "GeoConvert prints a NaN / INVALID result for a finite position" + ctx +
+                      (std::fabs(m.lat) < 1e-50 && al.zone > 0 && Math::AngDiff(doc::central_meridian(al.zone), m.lon) == -90 ? " [class:singular-point-west]" : ""));
+      continue;
+    }
     bool label = sethemi ? northp : m.northp;
     bool relabel_fails = al.ok && al.zone == 0 && label != m.northp && o.mode == 'u';
     if (!al.ok || relabel_fails) { if (!iserr) bad("tool-values", "GeoConvert prints a result where the requested zone is out of reach" + ctx); }
